@@ -341,6 +341,11 @@ def run_case(c, ns):
                         obj = obj[step] if isinstance(step, int) else getattr(obj, step)
                     last = ch["path"][-1]
                     newv = build(ch["value"], ns)
+                    # the value is changed relative to what the PARSE holds (the parse of the encoding need not give the
+                    # constructed value back: regex delimiters, positioning): an assignment of the value already there is no change
+                    old = obj[last] if isinstance(last, int) else getattr(obj, last, None)
+                    if old == newv:
+                        return "SAME"
                     if isinstance(last, int):
                         obj[last] = newv
                     else:
